@@ -371,3 +371,126 @@ def check_outcome_reads(ck, rule: str, fi: FuncInfo, skip_created: bool = True) 
             ok, why = True, "r3: an earlier outcome read of %s on every path already returned (not cancelled)" % r
         ck.ob(rule, fi, c, ok, "outcome read %s.%s() of a future this function did not create must be cancel-aware — %s" % (r, c.func.attr, why))
     return n
+
+
+# ---------------------------------------------------------------------------
+# "None is not falsy": optional values whose legal non-None values may be falsy
+# (timeout 0, a falsy exception object, an empty key list, a falsy awaitable)
+# must be told apart from None by identity, never by truthiness.
+
+
+def _truth_atoms(e: ast.AST):
+    if isinstance(e, ast.BoolOp):
+        for v in e.values:
+            yield from _truth_atoms(v)
+    elif isinstance(e, ast.UnaryOp) and isinstance(e.op, ast.Not):
+        yield from _truth_atoms(e.operand)
+    else:
+        yield e
+
+
+def truth_tested(fn: ast.AST):
+    """Expressions of ``fn``'s own scope (lambdas included) whose *truth value* is
+    taken: if/while/assert/ternary/comprehension conditions, operands of
+    ``not``, and all but the last operand of a value-context and/or chain."""
+    seen = set()
+    out = []
+
+    def add(e):
+        for a in _truth_atoms(e):
+            if id(a) not in seen:
+                seen.add(id(a))
+                out.append(a)
+
+    def walk(n, top=True):
+        for c in ast.iter_child_nodes(n):
+            if isinstance(c, q.FuncNode + (ast.ClassDef,)):
+                continue
+            if isinstance(c, (ast.If, ast.While, ast.IfExp, ast.Assert)):
+                add(c.test)
+            elif isinstance(c, ast.comprehension):
+                for i in c.ifs:
+                    add(i)
+            elif isinstance(c, ast.UnaryOp) and isinstance(c.op, ast.Not):
+                add(c.operand)
+            elif isinstance(c, ast.BoolOp):
+                for v in c.values[:-1]:
+                    add(v)
+            walk(c, False)
+
+    walk(fn)
+    return out
+
+
+def optional_names(fi: FuncInfo, extra: Optional[Dict[str, str]] = None) -> Dict[str, str]:
+    """name -> why it is Optional-with-falsy-legal-values in ``fi``: parameters whose
+    default is None or whose annotation admits None; locals that are bound to None
+    somewhere and to something else elsewhere; locals bound to ``X.exception()``;
+    the same for the enclosing functions (closure variables); plus ``extra``."""
+    out: Dict[str, str] = {}
+    cur: Optional[FuncInfo] = fi
+    while cur is not None:
+        a = cur.node.args
+        pos = a.posonlyargs + a.args
+        defaults = [None] * (len(pos) - len(a.defaults)) + list(a.defaults)
+        for arg, d in list(zip(pos, defaults)) + list(zip(a.kwonlyargs, a.kw_defaults)):
+            ann = q.unparse(arg.annotation) if arg.annotation is not None else ""
+            if (d is not None and q.is_const(d, None)) or "None" in ann or "Optional" in ann:
+                if "bool" in ann and "None" not in ann:
+                    continue
+                out.setdefault(arg.arg, "parameter of %s that may be None" % cur.qualname)
+        stores: Dict[str, List[ast.AST]] = {}
+        for st in own_walk(cur.node):
+            if isinstance(st, (ast.Assign, ast.AnnAssign)) and getattr(st, "value", None) is not None:
+                tg = st.targets if isinstance(st, ast.Assign) else [st.target]
+                for t in tg:
+                    if isinstance(t, ast.Name):
+                        stores.setdefault(t.id, []).append(st.value)
+                    elif isinstance(t, ast.Tuple) and isinstance(st.value, ast.Tuple) and len(t.elts) == len(st.value.elts):
+                        for te, ve in zip(t.elts, st.value.elts):
+                            if isinstance(te, ast.Name):
+                                stores.setdefault(te.id, []).append(ve)
+        for nm, vals in stores.items():
+            if any(q.is_const(v, None) for v in vals) and any(not q.is_const(v, None) for v in vals):
+                out.setdefault(nm, "local of %s bound to None on some paths" % cur.qualname)
+            if any(isinstance(v, ast.Call) and isinstance(v.func, ast.Attribute) and v.func.attr == "exception" and not v.args for v in vals):
+                out.setdefault(nm, "result of .exception() (None or an exception object, which may be falsy)")
+        # `except E as e: x = e` / else: x = None is covered by the None-store rule above
+        cur = cur.parent
+    for k, v in (extra or {}).items():
+        out[k] = v
+    return out
+
+
+def check_none_tests(ck, rule: str, fi: FuncInfo, extra: Optional[Dict[str, str]] = None, only: Optional[Iterable[str]] = None) -> int:
+    """Every test that separates None from a value, on an optional name of
+    ``fi``, uses identity; a truthiness test is a violation.  Returns the number
+    of governed tests (identity + truthiness)."""
+    names = optional_names(fi, extra)
+    if only is not None:
+        names = {k: v for k, v in names.items() if k in set(only)}
+    n = 0
+    for a in truth_tested(fi.node):
+        if isinstance(a, ast.Name) and a.id in names:
+            n += 1
+            ck.ob(rule, fi, a, False, "`%s` (%s) is tested by truthiness; a legal falsy value (0, empty, falsy object) would be treated like None — test `is None` / `is not None`" % (a.id, names[a.id]),
+                  construct="truthiness of %s" % a.id)
+        elif isinstance(a, ast.Compare) and len(a.ops) == 1 and isinstance(a.ops[0], (ast.Is, ast.IsNot)) and isinstance(a.left, ast.Name) and a.left.id in names and q.is_const(a.comparators[0], None):
+            n += 1
+            ck.ob(rule, fi, a, True, "`%s` is told apart from None by identity" % a.left.id)
+    return n
+
+
+def in_cycle(cfg: CFG, node: Node, follow_exc: bool = False) -> bool:
+    """``node`` can reach itself again (it is inside a loop that really iterates)."""
+    seen = set()
+    st = [y for y, k in cfg.succ[node.id] if follow_exc or k != "exc"]
+    while st:
+        x = st.pop()
+        if x == node.id:
+            return True
+        if x in seen:
+            continue
+        seen.add(x)
+        st.extend(y for y, k in cfg.succ[x] if follow_exc or k != "exc")
+    return False
